@@ -10,6 +10,14 @@
 // Reference (verif/ref/keysetwf.go, wire-level, no tink code): KeysetWellFormed (the structural rule of the
 // statement), ParseKeysetWire (independent Keyset decoder), WeakKeyReason (the minimum-strength list).
 //
+// Observations on the unchanged tree that are NOT judged (no panic, handle well-formed), see the report:
+//   - RsaSsaPss salt_length up to 2^31-1 is accepted by the parser, whose self-check then signs with a 2 GiB
+//     salt (allocation + getrandom) - seconds of CPU per parse;
+//   - a PrfBasedDeriverKey whose derived HMAC / PRF template says key_size = 2^32-1 is accepted and
+//     DeriveKeyset allocates 4 GiB before failing ("insufficient pseudorandomness"); mutants that set a size
+//     field >= 2^28 therefore run one at a time (hugeMu) to keep the harness inside its memory;
+//   - ECIES keys on CURVE25519 parse but no primitive exists for them.
+//
 // Don't-care cells (not judged, only counted in the outcome classes):
 //   - whether a structurally WELL-formed keyset with a strange key is accepted or rejected (wrong material
 //     type, unknown type URL -> fallback key, odd but harmless encodings): the statement allows both;
@@ -36,8 +44,8 @@ import (
 	aeadsubtle "github.com/tink-crypto/tink-go/v2/aead/subtle"
 	"github.com/tink-crypto/tink-go/v2/insecurecleartextkeyset"
 	"github.com/tink-crypto/tink-go/v2/keyset"
-	_ "github.com/tink-crypto/tink-go/v2/signature/compositemldsa" // not linked in by package signature
 	tinkpb "github.com/tink-crypto/tink-go/v2/proto/tink_go_proto"
+	_ "github.com/tink-crypto/tink-go/v2/signature/compositemldsa" // not linked in by package signature
 	"github.com/tink-crypto/tink-go/v2/tink"
 	"verif/h"
 	"verif/ref"
@@ -397,9 +405,19 @@ func applyKeyMut(m keyMut, value, alt []byte) (nv []byte, ok bool) {
 	return m.f(value, alt), true
 }
 
+// quick tier of bound 2: one seed per primitive family
+var bound2QuickSeeds = []string{"AesGcmKey/16", "AesCtrHmacAeadKey/16", "HmacKey/SHA256", "HkdfPrfKey/SHA256", "AesGcmHkdfStreamingKey/4096", "EcdsaPrivateKey/P256",
+	"Ed25519PublicKey/TINK", "HpkePrivateKey/X25519", "JwtHmacKey/HS256", "PrfBasedDeriverKey/HKDFSHA256-AES128GCM", "multi/aead", "multi/signature"}
+
 func mutSection(reduced bool) func(x *h.X) {
 	return func(x *h.X) {
 		seeds := seedsFor(x)
+		if reduced && !x.Thorough() {
+			seeds = nil
+			for _, n := range bound2QuickSeeds {
+				seeds = append(seeds, seedByName(n))
+			}
+		}
 		si := x.Choose("seed", len(seeds))
 		s := seeds[si]
 		x.Label(s.name)
@@ -497,10 +515,10 @@ func main() {
 		}
 	}
 	h.Main("C14", "exploration",
-		"deviation-bounded enumeration: seed corpus (one valid keyset per key type URL and parameter variant + 3 multi-key keysets) x structural mutation catalogue (keyset level: empty / primary / duplicate ids / every enum value and {-1,99} / nil and empty key data / type URLs; key level: every truncation, appended bytes, every scalar / enum / bytes / string / sub-message field of the key proto incl. nested KeyData and KeyTemplate values over a boundary set, EC point and RSA number edits, public/private halves swapped, the weak-parameter list of the statement); bound 1 over the full catalogue, bound 2 over the reduced catalogue (thorough). Every mutant goes through 6 entry paths (binary, JSON, encrypted under a real KEK, in-memory message; cleartext and no-secrets). Arbitrary input: all byte strings up to length 2/3, all JSON texts up to length 5/6 over {}[]\":,0a, every one-byte edit of minimal keysets (judged by an independent wire decoder), grammar-shaped JSON edits, EncryptedKeyset garbage. Oracles: no panic (parse, primitive creation, one use); accepted handle is well-formed; ill-formed keysets (reference rule) always rejected; created primitive self-consistent; weak keys (reference predicate) never usable. A case is non-trivial when a mutant / input was actually built and submitted; distinct = distinct choice vectors.",
+		"deviation-bounded enumeration: seed corpus (one valid keyset per key type URL and parameter variant + 3 multi-key keysets) x structural mutation catalogue (keyset level: empty / primary / duplicate ids / every enum value and {-1,99} / nil and empty key data / type URLs; key level: every truncation, appended bytes, every scalar / enum / bytes / string / sub-message field of the key proto incl. nested KeyData and KeyTemplate values over a boundary set, EC point and RSA number edits, public/private halves swapped, the weak-parameter list of the statement); bound 1 over the full catalogue, bound 2 over the reduced catalogue (quick: 12 seeds, thorough: all). Keyset-level mutants, the pristine seeds and every 8th key-level mutant go through 6 entry paths (binary, JSON, encrypted under a real KEK, in-memory message; cleartext and no-secrets), the other key-level mutants through the two binary paths. Arbitrary input: all byte strings up to length 2/3, all JSON texts up to length 5/6 over {}[]\":,0a, every one-byte edit of minimal keysets (judged by an independent wire decoder), grammar-shaped JSON edits, EncryptedKeyset garbage. Oracles: no panic (parse, primitive creation, one use); accepted handle is well-formed; ill-formed keysets (reference rule) always rejected; created primitive self-consistent; weak keys (reference predicate) never usable. A case is non-trivial when a mutant / input was actually built and submitted; distinct = distinct choice vectors.",
 		[]h.Section{
 			{Name: "mutate-bound1", Body: mutSection(false), Bound: 1},
-			{Name: "mutate-bound2-reduced", Body: mutSection(true), Bound: 2, Tiers: "thorough"},
+			{Name: "mutate-bound2-reduced", Body: mutSection(true), Bound: 2}, // quick: 12 seeds, thorough: all
 			{Name: "bytes-exhaustive", Body: bytesSection, Bound: -1},
 			{Name: "json-exhaustive", Body: jsonSection, Bound: -1},
 			{Name: "near-minimal-keysets", Body: nearMinimalSection, Bound: -1},
